@@ -160,6 +160,8 @@ def cfg_line(cfg):
     """harness tokens of a configuration (only the non-default part)"""
     t = []
     for k, v in sorted(cfg.items()):
+        if k == "_hist":
+            continue
         if k == "setfile":
             t.append("setfile=%s" % os.path.join(vlib.REPO, SETFILES[v]))
         elif k in DEFAULTS and DEFAULTS[k] == v:
@@ -193,6 +195,10 @@ def cfg_tags(cfg):
         t.append(cfg["sync"])
     if cfg.get("realfirst"):
         t.append("realfirst")
+    if cfg.get("_hist"):
+        # a later solve of a history on one object; which exact-solver options EARLIER solves of the history used matters
+        h = cfg["_hist"]
+        t.append("hist%s" % ("".join("-after-" + a for a in h["before"]) if h["step"] > 0 else "-first"))
     return "+".join(t) or "default"
 
 
@@ -433,6 +439,10 @@ def parse_solve(lines):
             res.setdefault(tag, {})[which] = t[2] if len(t) > 2 else ""
         elif t[0] == "REALFIRST":
             res.setdefault(t[1], {})["realfirst"] = lpgen.parse_kv(l)
+        elif t[0] == "TYPES":
+            res.setdefault(t[1], {})["types"] = lpgen.parse_kv(l)
+        elif t[0] == "REALSTEP":
+            res.setdefault(t[1], {})["realstep"] = lpgen.parse_kv(l)
     return res
 
 
@@ -463,6 +473,11 @@ def run_parallel(exe, text, tag, nproc=6):
 
 def e2e(ck, exe, cert, model, jobs):
     """jobs: list of (LP, [cfg, ...]); runs everything, asks the proved checkers, judges"""
+    obs = e2e_run(ck, exe, jobs)
+    e2e_judge(ck, cert, model, jobs, obs)
+
+
+def e2e_run(ck, exe, jobs):
     obs = {k: {} for k in range(len(jobs))}
     skip = set()
     for attempt in range(8):
@@ -500,12 +515,19 @@ def e2e(ck, exe, cert, model, jobs):
                 break
         if not found:
             break
+    return obs
+
+
+def e2e_judge(ck, cert, model, jobs, obs):
+    """obs[k]["e<k>.<c>"] = {"solve": parsed SOLVE line, "in"/"out": LP dumps, "types": parsed TYPES line}"""
     # ---- questions to the proved certificate checker
     q, g = "", ""
     for k, (p, cfgs) in enumerate(jobs):
         q += p.text("e%d" % k) + "\n"
         g += p.text("e%d" % k) + "\n"
         for c, cfg in enumerate(cfgs):
+            if "types" in obs[k].get("e%d.%d" % (k, c), {}):
+                g += "TYPES %d\n" % c
             o = obs[k].get("e%d.%d" % (k, c), {}).get("solve")
             if not o:
                 continue
@@ -539,18 +561,37 @@ def e2e(ck, exe, cert, model, jobs):
         certified = {}
         for c, cfg in enumerate(cfgs):
             rec = obs[k].get("e%d.%d" % (k, c), {})
+            tags = cfg_tags(cfg)
+            hist = cfg.get("_hist")
+            # (0) bookkeeping invariant between solves: the private range-type arrays are the types of the LP held
+            if "types" in rec:
+                mt = gate.get(("TYPES", str(c)))
+                ht = rec["types"]
+                if mt is None or (ht.get("ctypes"), ht.get("rtypes")) != (mt.get("ctypes"), mt.get("rtypes")):
+                    ck.count("stale-range-types")
+                    ck.violation("range-types-stale:%s" % tags,
+                                 "after solve %d of a history on one SoPlex object the private range types are not those of the rational LP held: _colTypes=%s _rowTypes=%s, "
+                                 "_rangeTypeRational of the bounds/sides gives %s / %s (0 free, 1 lower, 2 upper, 3 boxed, 4 fixed); the violation kernels of later solves "
+                                 "skip or invent sides (theorem C03_gate_needs_matching_types); history: %s" % (
+                                     hist["step"], ht.get("ctypes"), ht.get("rtypes"), mt and mt.get("ctypes"), mt and mt.get("rtypes"), hist["line"]),
+                                 {"lp": hist["lp0"], "history": hist["line"], "step": hist["step"], "lp_at_step": p.text("replay"), "hist_spec": hist["spec"], "implementation": ht, "model": mt,
+                                  "theorem": "C03_gate_needs_matching_types / hypothesis types_match of C03_gate_zero_is_optimal"})
             o = rec.get("solve")
             if not o:
                 continue
             st = o["status"]
-            tags = cfg_tags(cfg)
             ck.count("status:" + st)
             ck.count("family:" + p.family)
-            ck.evaluated(("e2e", p.key(), cfg_line(cfg), cfg.get("sync", "auto")), nontrivial=(p.n + p.m >= 3))
+            ck.evaluated(("e2e", p.key(), cfg_line(cfg), cfg.get("sync", "auto"), hist and (hist["line"], hist["step"])), nontrivial=(p.n + p.m >= 3 or bool(hist)))
 
             def rep(extra=None):
-                d = {"lp": p.text("replay"), "config": cfg, "harness_line": "SOLVE x sync=%s %s" % (cfg.get("sync", "auto"), cfg_line({a: b for a, b in finish_cfg(cfg).items() if a != "sync"})),
+                d = {"lp": p.text("replay"), "config": {a: b for a, b in cfg.items() if a != "_hist"},
+                     "harness_line": "SOLVE x sync=%s %s" % (cfg.get("sync", "auto"), cfg_line({a: b for a, b in finish_cfg(cfg).items() if a != "sync"})),
                      "observed": {a: b for a, b in o.items() if not a.startswith("_")}, "family": p.family}
+                if hist:
+                    d.update({"lp": hist["lp0"], "history": hist["line"], "step": hist["step"], "lp_at_step": p.text("replay"), "hist_spec": hist["spec"],
+                              "note": "the violation concerns solve number 'step' (from 0) of the history run on ONE SoPlex object; 'lp' is the LP entered first, "
+                                      "'lp_at_step' the LP after the rational edits of the history up to that solve"})
                 if extra:
                     d.update(extra)
                 return d
@@ -647,6 +688,188 @@ def e2e(ck, exe, cert, model, jobs):
                        "statuses": [obs[k].get("e%d.%d" % (k, c), {}).get("solve", {}).get("status") for c in range(len(cfgs))][:3]})
 
 
+# --------------------------------------------------------------------------------------
+# histories: several exact solves on ONE SoPlex object with option changes and rational edits in between
+# --------------------------------------------------------------------------------------
+H_EXTRA = {"forcebasic": [1], "ratfacjump": [1], "powerscaling": [0], "recovery_mechanism": [1], "acceptcycling": [1], "boosted_warm_start": [0],
+           "simplifier": [0, 1], "scaler": [0, 1, 3, 5]}
+H_DEFAULT = {"forcebasic": 0, "ratfacjump": 0, "powerscaling": 1, "recovery_mechanism": 0, "acceptcycling": 0, "boosted_warm_start": 1, "simplifier": 3, "scaler": 2}
+H_DEN = [3, 7, 3, 7, 9, 21, 6, 11]
+
+
+def gen_hist_lp(r, nmax):
+    """LP with one-sided inequality rows and non-dyadic data (thirds, sevenths, ...) built around a positive rational point, so that
+    the optimal vertex is not representable in double; mostly feasible and bounded"""
+    def fr(lo=1, hi=9):
+        return Fraction(r.randint(lo, hi), r.choice(H_DEN))
+    n, m = r.randint(1, nmax), r.randint(1, nmax)
+    x0 = [fr() for _ in range(n)]
+    maxi = r.random() < 0.4
+    cols = []
+    for j in range(n):
+        t = r.randrange(6)
+        lo, up = Fraction(0), None
+        if t == 0:
+            up = x0[j] + fr()
+        elif t == 1:
+            lo = x0[j] * Fraction(r.randint(0, 2), 3)
+        elif t == 2 and maxi:
+            up = x0[j] * Fraction(r.randint(3, 6), 3)
+        cols.append((fr(), lo, up))
+    rows = []
+    for i in range(m):
+        co = {j: fr() for j in range(n) if r.random() < 0.7}
+        if not co:
+            co = {r.randrange(n): fr()}
+        if r.random() < 0.15:
+            j = r.choice(sorted(co))
+            co[j] = -co[j]
+        a = sum((v * x0[j] for j, v in co.items()), Fraction(0))
+        t = r.randrange(20)
+        if t < 9:
+            lhs, rhs = a * Fraction(r.randint(1, 3), 3), None            # '>=' row
+        elif t < 16:
+            lhs, rhs = None, a * Fraction(r.randint(3, 6), 3)            # '<=' row
+        elif t < 18:
+            lhs = rhs = a
+        else:
+            lhs, rhs = a - fr(), a + fr()
+        if lhs is not None and rhs is not None and lhs > rhs:
+            lhs, rhs = rhs, lhs
+        rows.append((lhs, co, rhs))
+    return lpgen.LP(maxi, Fraction(r.choice([0, 0, 3, -5])) / r.choice([1, 2]), cols, rows, "hist")
+
+
+def gen_history(r, p):
+    """2-4 solves; per solve: eqtrans 0/1 and sometimes another exact-solver / presolve option, rational edits before the solve"""
+    nsteps = r.randint(2, 4)
+    steps = []
+    q = lpgen.LP(p.maxi, p.offset, list(p.cols), [(l, dict(c), h) for (l, c, h) in p.rows], p.family)
+    for k in range(nsteps):
+        st = {"set": {"eqtrans": r.randrange(2)}, "edits": [], "real": False}
+        for a, d in H_DEFAULT.items():
+            st["set"][a] = d
+        if r.random() < 0.35:
+            a = r.choice(sorted(H_EXTRA))
+            st["set"][a] = r.choice(H_EXTRA[a])
+        if k > 0 and r.random() < 0.5:
+            for _ in range(r.randint(1, 2)):
+                w = r.randrange(10)
+                if w < 5:
+                    st["edits"].append(("obj", r.randrange(q.n), Fraction(r.randint(1, 9), r.choice(H_DEN))))
+                elif w < 6:
+                    st["edits"].append(("sense", None, None))
+                elif w < 8:
+                    i = r.randrange(q.m)
+                    lhs, co, rhs = q.rows[i]
+                    if lhs is not None and (rhs is None or r.random() < 0.5):
+                        st["edits"].append(("lhs", i, lhs * Fraction(r.randint(1, 3), 3) if lhs > 0 else lhs - Fraction(1, 3)))
+                    elif rhs is not None:
+                        st["edits"].append(("rhs", i, rhs * Fraction(r.randint(3, 5), 3) if rhs > 0 else rhs + Fraction(1, 7)))
+                else:
+                    j = r.randrange(q.n)
+                    o, lo, up = q.cols[j]
+                    if up is not None:
+                        st["edits"].append(("up", j, up + Fraction(1, 7)))
+                    elif lo is not None:
+                        st["edits"].append(("lo", j, lo * Fraction(1, 3)))
+            apply_edits(q, st["edits"])
+        if k > 0 and r.random() < 0.08:
+            st["real"] = True
+        steps.append(st)
+    return {"sync": r.choice(["auto", "auto", "auto", "manual"]), "steps": steps}
+
+
+def apply_edits(q, edits):
+    for (kind, idx, v) in edits:
+        if kind == "obj":
+            o, lo, up = q.cols[idx]
+            q.cols[idx] = (Fraction(v), lo, up)
+        elif kind == "lo":
+            o, lo, up = q.cols[idx]
+            q.cols[idx] = (o, Fraction(v), up)
+        elif kind == "up":
+            o, lo, up = q.cols[idx]
+            q.cols[idx] = (o, lo, Fraction(v))
+        elif kind == "lhs":
+            lhs, co, rhs = q.rows[idx]
+            q.rows[idx] = (Fraction(v), co, rhs)
+        elif kind == "rhs":
+            lhs, co, rhs = q.rows[idx]
+            q.rows[idx] = (lhs, co, Fraction(v))
+        elif kind == "sense":
+            q.maxi = not q.maxi
+
+
+def hist_line(tag, spec):
+    out = ["HIST", tag, "sync=%s" % spec["sync"], "timelimit=%d" % TIMELIMIT]
+    for st in spec["steps"]:
+        out.append("|")
+        out += ["%s=%s" % (a, b) for a, b in sorted(st["set"].items())]
+        for (kind, idx, v) in st["edits"]:
+            out.append("sense:%s" % v if kind == "sense" else "%s:%d:%s" % (kind, idx, qs(v)))
+        if st["real"]:
+            out.append("mode:real")
+    return " ".join(out)
+
+
+def run_histories(ck, exe, cert, model, items):
+    """items: [(LP, spec)]; every exact solve of every history is judged exactly like a single solve (e2e_judge), against the LP as
+    it stands after the edits made so far; in addition the private range types and the LP held are compared after every step"""
+    text = ""
+    plan = []
+    for h, (p0, spec) in enumerate(items):
+        q = lpgen.LP(p0.maxi, p0.offset, list(p0.cols), [(l, dict(c), hh) for (l, c, hh) in p0.rows], p0.family)
+        # the 'sense' edit carries the new sense in the harness line
+        steps = []
+        for st in spec["steps"]:
+            eds = []
+            for (kind, idx, v) in st["edits"]:
+                if kind == "sense":
+                    eds.append(("sense", None, "min" if q.maxi else "max"))
+                    q.maxi = not q.maxi
+                else:
+                    eds.append((kind, idx, Fraction(v)))
+                    apply_edits(q, [(kind, idx, v)])
+            steps.append({"set": st["set"], "edits": eds, "real": st["real"],
+                          "lp": lpgen.LP(q.maxi, q.offset, list(q.cols), [(l, dict(c), hh) for (l, c, hh) in q.rows], q.family)})
+        line = hist_line("h%d" % h, {"sync": spec["sync"], "steps": steps})
+        text += p0.text("h%d" % h) + "\n" + line + "\n"
+        plan.append((p0, spec, steps, line))
+    rc, out, err = run_parallel(exe, text, ck.pid + "-hist")
+    B = lpgen.blocks(out)
+    jobs, obs = [], {}
+    for h, (p0, spec, steps, line) in enumerate(plan):
+        lines = B.get("h%d" % h, [])
+        recs = parse_solve(lines)
+        crash = [l for l in lines if l.startswith("HISTCRASH ")]
+        before = set()
+        crashed_reported = False
+        ck.count("histories")
+        for k, st in enumerate(steps):
+            cfg = {a: b for a, b in st["set"].items() if DEFAULTS.get(a, H_DEFAULT.get(a)) != b}
+            cfg["sync"] = spec["sync"]
+            cfg["_hist"] = {"step": k, "before": sorted(before) or ["plain"], "line": line, "lp0": p0.text("replay"),
+                            "spec": {"sync": spec["sync"], "steps": [{"set": s2["set"], "edits": [(a, b, None if c is None else str(c)) for (a, b, c) in s2["edits"]], "real": s2["real"]} for s2 in spec["steps"]]}}
+            rec = dict(recs.get("h%d.%d" % (h, k), {}))
+            J = len(jobs)
+            ck.count("history-steps:%s" % ("real" if st["real"] else "exact"))
+            if not rec and crash and not crashed_reported:
+                crashed_reported = True
+                sig = lpgen.parse_kv(crash[0])
+                rec = {"solve": {"_tag": "SOLVE", "_id": "h%d.%d" % (h, k), "status": "CRASH", "signal": sig.get("signal", ""), "exit": sig.get("exit", "")}}
+            if "in" in rec:
+                del rec["in"]
+            jobs.append((st["lp"], [cfg]))
+            obs[J] = {"e%d.0" % J: rec}
+            if st["set"].get("eqtrans") == 1:
+                before.add("eqtrans")
+            if st["real"]:
+                before.add("real")
+    # block ids must be those of the jobs: e2e_judge addresses LP k as "e<k>"
+    e2e_judge(ck, cert, model, jobs, obs)
+
+
 def first_diff(a, b):
     ta, tb = a.split(";"), b.split(";")
     for u, v in zip(ta, tb):
@@ -716,7 +939,13 @@ def main():
                     rows.append((lpgen.fr(t[1]), {int(e.split(":")[0]): Fraction(e.split(":")[1]) for e in t[3:]}, lpgen.fr(t[2])))
             os.remove(f)
             p = lpgen.LP(head[2] == "max", Fraction(head[3]), cols, rows, "replay")
-            e2e(ck, exe, cert, model, [(p, [rp["config"]])])
+            if "hist_spec" in rp:
+                spec = {"sync": rp["hist_spec"]["sync"],
+                        "steps": [{"set": st["set"], "real": st["real"], "edits": [(a, b, None if a == "sense" else Fraction(c)) for (a, b, c) in st["edits"]]}
+                                  for st in rp["hist_spec"]["steps"]]}
+                run_histories(ck, exe, cert, model, [(p, spec)])
+            else:
+                e2e(ck, exe, cert, model, [(p, [rp["config"]])])
         ck.finish()
     # ---- (o) the source the verdict automaton models
     hs = verdict_source_hashes()
@@ -795,6 +1024,17 @@ def main():
             alljobs.append((p, cfgs))
         ck.count("e2e-solves-planned", sum(len(c) for _, c in alljobs))
         e2e(ck, exe, cert, model, alljobs)
+    # ---- (iii) histories on one object
+    nh = 90 if quick else 1500
+    items = []
+    for _ in range(nh):
+        p0 = gen_hist_lp(r, 4 if quick else 8)
+        items.append((p0, gen_history(r, p0)))
+    # the shape of the smallest LP on which a stale row type shows: min x s.t. 1/3 x >= 1/7, eqtrans on, then off
+    items.insert(0, (lpgen.LP(False, Fraction(0), [(Fraction(1), Fraction(0), None)], [(Fraction(1, 7), {0: Fraction(1, 3)}, None)], "hist"),
+                     {"sync": "auto", "steps": [{"set": dict(H_DEFAULT, eqtrans=1), "edits": [], "real": False}, {"set": dict(H_DEFAULT, eqtrans=0), "edits": [], "real": False},
+                                                {"set": dict(H_DEFAULT, eqtrans=1), "edits": [("obj", 0, Fraction(2, 7))], "real": False}]}))
+    run_histories(ck, exe, cert, model, items)
     kernel_from_answers(ck, exe, model, ck.opt_answers, 60 if quick else 600)
     ck.cov["rule"] = ("(i) kernel cases: an LP with rational data (fractions 1/3, 1/10, ..., zero bounds, all range types) + rational vectors x, s, y, d (on/off bounds, "
                       "consistent or perturbed) + basis status arrays (all six statuses) + optional overridden range-type arrays + tolerances / minIRRoundsRemaining / "
